@@ -653,6 +653,96 @@ fn probe(id: u64, r: &mut Rng, out: &mut String, st: &mut Stats) {
     if st.probe_pages.len() < 5 { st.probe_pages.push((a0, a1, a2)); }
 }
 
+// ------------------------------------------------------------------ type-confusion matrix (independent of TypeName)
+// Ground truth: every type below has an identity chosen BY HAND (what the bytes mean), not derived from
+// `type_name()`. A table created with key (or value) type A must not open with type B unless A and B have the
+// same identity (the same type, or a documented legacy spelling of it). The check is exhaustive over ordered pairs.
+struct TFakeU32;
+impl Ty for TFakeU32 { type R = FakeU32; type O = Vec<u8>; fn mk(s: u64) -> Vec<u8> { ((s % 7) as u32).to_le_bytes().to_vec() } fn br<'a>(o: &'a Vec<u8>) -> &'a [u8] { o } }
+struct TTup64x32;
+impl Ty for TTup64x32 { type R = (u64, u32); type O = (u64, u32); fn mk(s: u64) -> (u64, u32) { (s % 3, (s / 3 % 3) as u32) } fn br<'a>(o: &'a (u64, u32)) -> (u64, u32) { *o } }
+struct TTup64xFake;
+impl Ty for TTup64xFake { type R = (u64, FakeU32); type O = (u64, Vec<u8>); fn mk(s: u64) -> (u64, Vec<u8>) { (s % 3, ((s / 3 % 3) as u32).to_le_bytes().to_vec()) } fn br<'a>(o: &'a (u64, Vec<u8>)) -> (u64, &'a [u8]) { (o.0, o.1.as_slice()) } }
+struct TTupFakex64;
+impl Ty for TTupFakex64 { type R = (FakeU32, u64); type O = (Vec<u8>, u64); fn mk(s: u64) -> (Vec<u8>, u64) { (((s % 3) as u32).to_le_bytes().to_vec(), s / 3 % 3) } fn br<'a>(o: &'a (Vec<u8>, u64)) -> (&'a [u8], u64) { (o.0.as_slice(), o.1) } }
+struct TTup3;
+impl Ty for TTup3 { type R = (u64, u64, u32); type O = (u64, u64, u32); fn mk(s: u64) -> (u64, u64, u32) { (s % 2, s / 2 % 2, (s / 4 % 2) as u32) } fn br<'a>(o: &'a (u64, u64, u32)) -> (u64, u64, u32) { *o } }
+struct TTup3Fake;
+impl Ty for TTup3Fake { type R = (u64, u64, FakeU32); type O = (u64, u64, Vec<u8>); fn mk(s: u64) -> (u64, u64, Vec<u8>) { (s % 2, s / 2 % 2, ((s / 4 % 2) as u32).to_le_bytes().to_vec()) } fn br<'a>(o: &'a (u64, u64, Vec<u8>)) -> (u64, u64, &'a [u8]) { (o.0, o.1, o.2.as_slice()) } }
+struct TArrU32;
+impl Ty for TArrU32 { type R = [u32; 2]; type O = [u32; 2]; fn mk(s: u64) -> [u32; 2] { [(s % 3) as u32, (s / 3 % 3) as u32] } fn br<'a>(o: &'a [u32; 2]) -> [u32; 2] { *o } }
+struct TArrFake;
+impl Ty for TArrFake { type R = [FakeU32; 2]; type O = [Vec<u8>; 2]; fn mk(s: u64) -> [Vec<u8>; 2] { [((s % 3) as u32).to_le_bytes().to_vec(), ((s / 3 % 3) as u32).to_le_bytes().to_vec()] } fn br<'a>(o: &'a [Vec<u8>; 2]) -> [&'a [u8]; 2] { [o[0].as_slice(), o[1].as_slice()] } }
+
+fn confuse<A: Ty, B: Ty>(db: &Database, tag: &str) -> (String, String) {
+    // table created with A as key (resp. value) type, then opened with B in a later write transaction and in a read transaction
+    let kname = format!("k.{tag}");
+    let vname = format!("v.{tag}");
+    let setup = catch(|| {
+        let t = db.begin_write().unwrap();
+        {
+            let mut tk = t.open_table(TableDefinition::<A::R, u64>::new(&kname)).unwrap();
+            let a = A::mk(5);
+            tk.insert(A::br(&a), 1u64).unwrap();
+            let mut tv = t.open_table(TableDefinition::<u64, A::R>::new(&vname)).unwrap();
+            tv.insert(1u64, A::br(&a)).unwrap();
+        }
+        t.commit().unwrap();
+    });
+    if let Err(m) = setup {
+        return (format!("SETUP-PANIC:{m}"), String::new());
+    }
+    let probe = |key_pos: bool| -> String {
+        let w = catch(|| {
+            let t = db.begin_write().unwrap();
+            let r = if key_pos { t.open_table(TableDefinition::<B::R, u64>::new(&kname)).map(|_| ()) } else { t.open_table(TableDefinition::<u64, B::R>::new(&vname)).map(|_| ()) };
+            let s = match r { Ok(()) => "ok".to_string(), Err(e) => err_s(&e) };
+            t.abort().unwrap();
+            s
+        });
+        let rd = catch(|| {
+            let t = db.begin_read().unwrap();
+            let r = if key_pos { t.open_table(TableDefinition::<B::R, u64>::new(&kname)).map(|_| ()) } else { t.open_table(TableDefinition::<u64, B::R>::new(&vname)).map(|_| ()) };
+            match r { Ok(()) => "ok".to_string(), Err(e) => err_s(&e) }
+        });
+        format!("w={} r={}", w.unwrap_or_else(|m| format!("PANIC:{m}")), rd.unwrap_or_else(|m| format!("PANIC:{m}")))
+    };
+    (probe(true), probe(false))
+}
+
+macro_rules! confusion_row {
+    ($db:expr, $out:expr, $n:expr, $a:ident, $aid:expr; $( $b:ident, $bid:expr );* ) => {
+        $(
+            if stringify!($a) != stringify!($b) {
+                let (k, v) = confuse::<$a, $b>($db, &format!("{}", *$n));
+                writeln!($out, "{} | {} | {} | {} | key: {} | value: {}", stringify!($a), $aid, stringify!($b), $bid, k, v).unwrap();
+                *$n += 1;
+            }
+        )*
+    };
+}
+macro_rules! confusion_all {
+    ($db:expr, $out:expr, $n:expr; $( $a:ident, $aid:expr );* ) => {
+        $( confusion_row!($db, $out, $n, $a, $aid; TU64, "u64"; TU32, "u32"; TFakeU64, "user u64"; TFakeU32, "user u32"; TBytes, "&[u8]"; TStr, "&str";
+            TTup, "(u32,u64)"; TTup64x32, "(u64,u32)"; TTup64xFake, "(u64,user u32)"; TTupFakex64, "(user u32,u64)"; TTup3, "(u64,u64,u32)"; TTup3Fake, "(u64,u64,user u32)";
+            TOpt, "Option<u32>"; TLegOpt, "Option<u32>"; TOptFake, "Option<user u32>"; TUserOpt, "Option<user u32>"; TLegOptW, "Option<u32> var-width";
+            TArr, "[u8;4]"; TArrU32, "[u32;2]"; TArrFake, "[user u32;2]"; TVTup, "(u32,&str)"; TLegVTup, "(u32,&str)"; TBadVTup, "redb2 (u32,&str)";
+            TW4U64, "u64 width 4"; TW3Bytes, "&[u8] width 3"); )*
+    };
+}
+fn confusion_matrix() -> String {
+    let mem = Mem(Arc::new(Mutex::new(vec![])));
+    let db = open_db(&mem, 4096);
+    let mut out = String::new();
+    let mut n = 0u64;
+    confusion_all!(&db, out, &mut n; TU64, "u64"; TU32, "u32"; TFakeU64, "user u64"; TFakeU32, "user u32"; TBytes, "&[u8]"; TStr, "&str";
+        TTup, "(u32,u64)"; TTup64x32, "(u64,u32)"; TTup64xFake, "(u64,user u32)"; TTupFakex64, "(user u32,u64)"; TTup3, "(u64,u64,u32)"; TTup3Fake, "(u64,u64,user u32)";
+        TOpt, "Option<u32>"; TLegOpt, "Option<u32>"; TOptFake, "Option<user u32>"; TUserOpt, "Option<user u32>"; TLegOptW, "Option<u32> var-width";
+        TArr, "[u8;4]"; TArrU32, "[u32;2]"; TArrFake, "[user u32;2]"; TVTup, "(u32,&str)"; TLegVTup, "(u32,&str)"; TBadVTup, "redb2 (u32,&str)";
+        TW4U64, "u64 width 4"; TW3Bytes, "&[u8] width 3");
+    out
+}
+
 fn main() {
     silence_panics();
     let n: u64 = std::env::args().nth(1).map(|s| s.parse().unwrap()).unwrap_or(100);
@@ -677,6 +767,7 @@ fn main() {
         }
     }
     std::fs::write("probes.txt", &probes).unwrap();
+    std::fs::write("confusion.txt", catch(confusion_matrix).unwrap_or_else(|m| format!("MATRIX-PANIC:{m}\n"))).unwrap();
     let nlines = log.lines;
     let map_s = |m: &BTreeMap<String, u64>| format!("{{{}}}", m.iter().map(|(k, v)| format!("\"{k}\":{v}")).collect::<Vec<_>>().join(","));
     let js = format!("{{\"programs\":{},\"lines\":{},\"ops\":{},\"results\":{},\"type_pairs_used\":{},\"distinct_stored_vs_requested_pairs\":{},\"nontrivial_programs\":{},\"rename_of_staged\":{},\"reopen_of_staged\":{},\"delete_of_staged\":{},\"opens_ok_with_other_type_pair_than_created\":{},\"max_open_handles\":{},\"probes\":{},\"probe_pages_before_filled_after\":{:?}}}",
